@@ -8,10 +8,11 @@ fn main() {
     let out = arg("--out").expect("--out");
     let n: usize = arg("--n").and_then(|s| s.parse().ok()).unwrap_or(200);
     let mut rng = Rng::new(seed_from_env() ^ 0x10a);
-    let mut sh = Shards::new(&out, "From Sci Require Import Network.Cases. Open Scope N_scope.", "jcase", "jverdicts", 60);
+    let mut sh = Shards::new(&out, "From Sci Require Import Network.Cases. Open Scope N_scope.", "jcase", "jverdicts", 12);
     let mut sum = Summary::default();
     let mut topos: Vec<Topo> = directed_topos(&mut rng);
-    topos.extend(enumerate_small(&mut rng, if n >= 1000 { 150 } else { 20 }));
+    topos.extend(plan_topos(&mut rng));
+    topos.extend(enumerate_small(&mut rng, if n >= 1000 { 150 } else { 14 }));
     let per = (n / (topos.len() + 3)).max(4);
     let mut ti = 0usize;
     let mut distinct = 0usize;
@@ -21,6 +22,7 @@ fn main() {
         let Some(w) = World::build_light(&topo, &mut rng) else { continue };
         for c in w.join_cases(&mut rng, per.min(n - sh.total)) {
             sum.count(if c.offered > 0 { "offered.some" } else { "offered.none" });
+            sum.count(&format!("row.{}_{}_{}", c.row.0, c.row.1, c.row.2));
             sum.count(&format!("segments.{}", c.segs.len().min(8)));
             if sum.samples.len() < 3 { sum.samples.push(c.human()); }
             sum.index.push(c.human());
